@@ -38,6 +38,7 @@ func init() {
 type T struct {
 	A string  `json:"a"`
 	N float64 `json:"n"`
+	O string  `json:"o,omitempty"` // optional: absent from most stored values
 }
 
 // Cfg selects the middleware flavour.
@@ -702,6 +703,10 @@ func genCase() *rapid.Generator[Case] {
 			case "create":
 				if strings.HasPrefix(st.RID, "svc.m.") {
 					st.V = fmt.Sprintf(`{"a":%s,"n":%s}`, rapid.SampledFrom(strs).Draw(t, "a"), rapid.SampledFrom(nums).Draw(t, "n"))
+					if rapid.IntRange(0, 2).Draw(t, "witho") == 0 {
+						// an optional property that other values of the same handler lack
+						st.V = fmt.Sprintf(`{"a":%s,"n":%s,"o":"opt"}`, rapid.SampledFrom(strs).Draw(t, "a"), rapid.SampledFrom(nums).Draw(t, "n"))
+					}
 					if !c.Cfg.Typed && rapid.IntRange(0, 3).Draw(t, "withnull") == 0 {
 						st.V = fmt.Sprintf(`{"a":%s,"b":null}`, rapid.SampledFrom(strs).Draw(t, "a"))
 					}
